@@ -209,7 +209,7 @@ def gen_message(rng):
 
 
 def gen_cases(op, rng, tier):
-    n = 2000 if tier == 'quick' else 60000
+    n = 2000 if tier == 'quick' else 30000
     out = []
     for _ in range(n):
         m = gen_message(rng)
